@@ -252,11 +252,16 @@ def explore(cfg, depth, res):
     # whole-record sequential read first (depth-independent)
     s = make()
     seq = []
-    while True:
-        b = s.fr.readLrBytes(-1)
-        if b is None:
-            break
-        seq.append(b)
+    try:
+        while True:
+            b = s.fr.readLrBytes(-1)
+            if b is None:
+                break
+            seq.append(b)
+    except Exception as err:  # noqa  - a conformant file must read
+        res.violate({'kind': 'sequential_read_raises', 'exc': type(err).__name__}, {'cfg': cfg, 'history': [['read', -1]] * (len(seq) + 1)},
+                    'whole-record read %d raised %s: %s' % (len(seq), type(err).__name__, err))
+        return 1, len(seq) + 1, True
     if seq != recs:
         res.violate({'kind': 'sequential_read'}, {'cfg': cfg, 'history': [['read', -1]] * (len(recs) + 1)},
                     'whole-record reads gave %d records, %d written' % (len(seq), len(recs)))
